@@ -3,6 +3,7 @@ mod cmd_core;
 mod cmd_sim;
 mod cmd_set;
 mod cmd_enrich;
+mod cmd_binary;
 mod enc;
 mod paths;
 mod project;
@@ -23,6 +24,8 @@ fn main() {
         "replay-sim" => cmd_sim::run(&args),
         "replay-set" => cmd_set::run(&args),
         "replay-enrich" => cmd_enrich::run(&args),
+        "replay-binary" => cmd_binary::run(&args),
+        "debug-mismatch" => cmd_binary::debug_mismatch(&args),
         "replay-one" => {
             let text = std::fs::read_to_string(args.req("file")).unwrap_or_else(|e| {
                 eprintln!("cannot read replay file: {e}");
@@ -37,6 +40,7 @@ fn main() {
                 "replay-sim" => cmd_sim::replay_one(&v),
                 "replay-set" => cmd_set::replay_one(&v),
                 "replay-enrich" => cmd_enrich::replay_one(&v),
+                "replay-binary" => cmd_binary::replay_one(&v),
                 other => {
                     eprintln!("unknown replay cmd {other}");
                     std::process::exit(2)
